@@ -15,6 +15,7 @@ contingent problem of the documentation.
 Python builds objects, calls `problem.kind`, and projects: no feature is decided here.
 """
 import os
+import re
 import warnings
 from fractions import Fraction
 
@@ -144,6 +145,7 @@ def sections(P, cls):
     P.setdefault("agoals", [])
     P.setdefault("cons", [])
     P.setdefault("intconst", False)
+    P.setdefault("invforms", [])
     P["class"] = cls
     P["ifuns"] = []  # tables are not needed by the extractor
     P.pop("metric", None)
@@ -164,6 +166,17 @@ def project_problem(problem):
         P = upj.project(src)
     except (ValueError, TypeError, AttributeError) as ex:
         raise Unprojectable("%s: %s" % (type(ex).__name__, str(ex)[:80]))
+    # how each state invariant is written, in the order of Problem.state_invariants (structure only)
+    P["invforms"] = []
+    for tc in problem.trajectory_constraints:
+        if tc.is_always():
+            P["invforms"].append("plain")
+        elif tc.is_and():
+            P["invforms"] += ["and" for a in tc.args if a.is_always()]
+        elif tc.is_forall() and tc.arg(0).is_always():
+            P["invforms"].append("forall")
+    if len(P["invforms"]) != len(P["invariants"]):
+        raise Unprojectable("state invariants and trajectory constraints do not line up")
     P["actions"] = [p_container(a) for a in problem.actions]
     P["events"] = [p_container(a) for a in problem.events]
     P["processes"] = [p_container(a) for a in problem.processes]
@@ -185,9 +198,20 @@ def project_problem(problem):
     return sections(P, cls)
 
 
+def _with_ancestors(types):
+    out = []
+    for t in types:
+        while t is not None and t not in out:
+            out.append(t)
+            t = t.father
+    return out
+
+
 def project_scheduling(problem):
     P = {"name": problem.name or ""}
-    P["types"] = [{"name": t.name, "parent": t.father.name if t.father is not None else ""} for t in problem.user_types]
+    # SchedulingProblem.user_types does not list the types that only activity parameters use
+    used = list(problem.user_types) + [p.type for a in problem.activities for p in a.parameters if p.type.is_user_type()]
+    P["types"] = [{"name": t.name, "parent": t.father.name if t.father is not None else ""} for t in _with_ancestors(used)]
     P["objects"] = [{"name": o.name, "type": o.type.name} for o in problem.all_objects]
     P["fluents"] = [p_fluent(f, problem.fluents_defaults, problem.initial_defaults) for f in problem.fluents]
     P["init"] = [{"f": fe.fluent().name, "args": [upj.p_const(a) for a in fe.args], "v": upj.p_const(v)}
@@ -274,17 +298,26 @@ def project_k(problem):
     raise Unprojectable("class " + type(problem).__name__)
 
 
+_TIMEOUTS = 0  # per process: calls of problem.kind that did not return
+
+
 def observe(rid, problem, src, expect="", epos="", intconst=False, info=None):
     """one record for the judge: projected problem + the kind computed by the real code"""
     P = project_k(problem)
     P["intconst"] = intconst
     rec = {"id": rid, "src": src, "P": P, "kind": [], "raised": "", "expect": expect, "epos": epos, "info": info or {}}
+    global _TIMEOUTS
     try:
         with warnings.catch_warnings():
             warnings.simplefilter("ignore")
-            k = call_limited(lambda: problem.kind, limit=20)
+            if _TIMEOUTS < 2:
+                k = call_limited(lambda: problem.kind, limit=20, factor=6)
+            else:  # reproducible non-termination: do not wait minutes for every further problem
+                with time_limit(10):
+                    k = problem.kind
         rec["kind"] = sorted(k.features)
     except ImplTimeout:
+        _TIMEOUTS += 1
         rec["raised"] = "timeout"
     except MachineryError:
         raise
@@ -317,6 +350,7 @@ class World:
         self.objs = {}
         self.agent = None
         self.sensing = False
+        self.plain = False
         if cls == "classical":
             self.problem = S.Problem("g1")
         elif cls == "htn":
@@ -393,7 +427,7 @@ class World:
         from unified_planning.model.contingent import SensingAction
 
         if "inst" not in self.cont:
-            C = SensingAction if (self.cls == "contingent" or self.sensing) else self.S.InstantaneousAction
+            C = SensingAction if ((self.cls == "contingent" and not self.plain) or self.sensing) else self.S.InstantaneousAction
             self.cont["inst"] = C("a", **params)
         return self.cont["inst"]
 
@@ -515,6 +549,14 @@ def cond_expr(w, feat, nested, dot=False, x=None):
     return S.And(w.fx("p2", dot=dot), S.Exists(S.And(w.fx("q", v, dot=dot), top), v))
 
 
+def whole(w):
+    """[start, end] of the activity of a scheduling world"""
+    from unified_planning.model.timing import Timing
+
+    d = w.dur()
+    return w.S.ClosedTimeInterval(Timing(0, d.start), Timing(0, d.end))
+
+
 def interval(S, a=1, b=3):
     return S.ClosedTimeInterval(S.GlobalStartTiming(a), S.GlobalStartTiming(b))
 
@@ -553,7 +595,7 @@ def place_cond(w, case, pos, feat, nested, var):
     elif pos == "durative-condition":
         d = w.dur()
         if w.cls == "scheduling":
-            d.add_condition(S.ClosedTimeInterval(d.start, d.end), X())
+            d.add_condition(whole(w), X())
         else:
             d.add_condition(S.StartTiming(), X())
     elif pos == "event-precondition":
@@ -639,7 +681,7 @@ def instantiate(case, n):
     elif grp == "nonlinear":
         # d r/dt = r2 where r2 is itself changed continuously (in the same container, or in another one)
         rhs = w.fx("r2") if "cross" in flags else w.fx("r")
-        if pos == "process-effect":
+        if pos.startswith("process-effect"):
             w.process().add_increase_continuous_effect(w.fluent("r"), rhs)
             if "cross" in flags:
                 p2 = S.Process("pr2")
@@ -656,7 +698,7 @@ def instantiate(case, n):
     elif grp == "assign":
         form = var.split("-")[0]
         static = "static" in flags
-        X = feat.split("|")[-1].split("_")[2]  # BOOLEAN / NUMERIC / OBJECT
+        X = feat.rstrip("+").split("_")[-2]  # BOOLEAN / NUMERIC / OBJECT
         epos = pos.rsplit("-", 1)[0]
         if X == "BOOLEAN":
             src, tgt = ("sp" if static else "p"), "e"
@@ -672,11 +714,12 @@ def instantiate(case, n):
             w.make_dynamic(src)
         place_effect(w, epos, w.fx(tgt), w.fx(src), kind=form)
     elif grp == "class":
-        if pos == "sensing-action":
-            w.sensing = True
+        # a ContingentProblem is contingent with or without sensing actions; a SensingAction makes any problem contingent
+        w.sensing = "sensing" in flags or pos == "sensing-action"
+        w.plain = cls == "contingent" and not w.sensing
         a = w.inst()
         a.add_effect(w.fluent("p"), True)
-        if cls == "contingent" or pos == "sensing-action":
+        if w.sensing:
             a.add_observed_fluent(w.fx("p"))
     elif grp == "typing":
         hier = feat == "HIERARCHICAL_TYPING"
@@ -713,7 +756,7 @@ def instantiate(case, n):
             f = w.fluent(name)
             if var == "used":
                 if cls == "scheduling":
-                    w.dur().add_condition(S.ClosedTimeInterval(w.dur().start, w.dur().end), S.Equals(f, f))
+                    w.dur().add_condition(whole(w), S.Equals(f, f))
                 else:
                     w.inst().add_precondition(S.Equals(f, f))
         elif feat == "BOUNDED_TYPES":
@@ -723,7 +766,7 @@ def instantiate(case, n):
             if "unused" not in flags:
                 w.make_dynamic("p")
                 if cls == "scheduling":
-                    w.dur().add_condition(S.ClosedTimeInterval(w.dur().start, w.dur().end), S.LE(f, 5))
+                    w.dur().add_condition(whole(w), S.LE(f, 5))
                 else:
                     w.inst().add_precondition(S.LE(f, 5))
         elif feat == "BOOL_FLUENT_PARAMETERS":
@@ -812,7 +855,8 @@ def instantiate(case, n):
         m = w.htn_method()
         a = w.inst()
         if grp != "htn":
-            m.add_subtask(a)
+            consts = {"bool": True, "int": 1, "real": Fraction(1, 2)}
+            m.add_subtask(a, *[w.obj(1) if p.type.is_user_type() else consts[upj.p_type(p.type)["k"]] for p in a.parameters])
             pb.task_network.add_subtask(w.task, *w.task_args())
     return w.finish()
 
@@ -837,8 +881,7 @@ def build_time_case(w, feat, pos, var, flags):
             pb.add_activity("act", duration=2)
         else:
             temporal_piece(pos)
-        if feat == "DISCRETE_TIME":
-            pb.discrete_time = True
+        pb.discrete_time = feat == "DISCRETE_TIME"
     elif feat == "TIMED_EFFECTS":
         temporal_piece("timed-effect")
     elif feat == "TIMED_GOALS":
@@ -908,7 +951,7 @@ def set_bounds(w, lo, hi):
 def build_duration_case(w, feat, pos, var, flags):
     S = w.S
     lower = "lower" in pos
-    if feat.endswith("FLUENTS_IN_DURATIONS"):
+    if feat.rstrip("+").endswith("FLUENTS_IN_DURATIONS"):
         static = feat.startswith("STATIC")
         name = "sn" if static else "n"
         if not static:
@@ -920,7 +963,7 @@ def build_duration_case(w, feat, pos, var, flags):
         if var == "nested":
             b = S.Plus(S.Times(2, b), 1)
         set_bounds(w, b, 100) if lower else set_bounds(w, 0, b)
-    elif feat == "INT_TYPE_DURATIONS|REAL_TYPE_DURATIONS":
+    elif feat == "INT_TYPE_DURATIONS+":
         b = S.Div(w.fx("sn"), 2)
         set_bounds(w, b, 100) if lower else set_bounds(w, 0, b)
     else:
@@ -960,12 +1003,12 @@ def build_metric_case(w, feat, pos, var, flags):
         pb.add_quality_metric(m)
         return
     if pos in ("action-cost", "default-action-cost"):
-        if feat.endswith("FLUENTS_IN_ACTIONS_COST"):
+        if feat.rstrip("+").endswith("FLUENTS_IN_ACTIONS_COST"):
             static = feat.startswith("STATIC")
             if not static:
                 a.add_increase_effect(w.fluent("n"), 1)
             c = S.Plus(w.fx("sn" if static else "n"), 1)
-        elif "|" in feat:
+        elif feat == "INT_NUMBERS_IN_ACTIONS_COST+":
             c = S.Div(w.fx("sn"), 2)
         else:
             real = feat.startswith("REAL")
@@ -974,7 +1017,7 @@ def build_metric_case(w, feat, pos, var, flags):
             else:
                 c = w.fx("sr") if real else w.fx("sn")
         # the other cost has the other sort, so that only this position demands the feature
-        other = 1 if (feat.startswith("REAL") and "|" not in feat) else Fraction(1, 2)
+        other = 1 if feat.startswith("REAL") else Fraction(1, 2)
         if pos == "action-cost":
             pb.add_quality_metric(S.MinimizeActionCosts({a: c}, default=other))
         else:
@@ -1093,18 +1136,32 @@ def judge(ctx, label, recs):
         raise MachineryError("judge consumed %d records, expected %d" % (res.distinct, len(recs)))
     ctx.add_tlc("judge-" + label, res)
     ctx.cov["traces_validated_against_impl"] += len(recs)
+    if re.search(r"^<< ", res.stdout, re.M):
+        raise MachineryError("TLC wrapped a printed tuple (verdict lines must stay short)")
     fails, unspec, hits, lost = set(), set(), set(), set()
+    labels, poss = {}, {}
     for p in res.printed:
         if not p or not isinstance(p, list):
             continue
-        if p[0] == "FAIL":
-            fails.add((p[1], p[2], p[3]))
+        if p[0] == "F":
+            labels[(p[1], p[2])] = p[3]
+        elif p[0] == "P":
+            poss[(p[1], p[2])] = p[3]
         elif p[0] == "UNSPEC":
             unspec.add((p[1], p[2]))
         elif p[0] == "HIT":
             hits.add(p[1])
         elif p[0] == "LOST":
-            lost.add((p[1], p[2], p[3]))
+            lost.add(p[1])
+    for (rid, k), lab in labels.items():
+        if k == 0:
+            fails.add((rid, lab, "kind"))
+        elif (rid, k) not in poss:
+            raise MachineryError("verdict line without position: %r" % ((rid, k, lab),))
+        else:
+            fails.add((rid, "missing-" + lab, poss[(rid, k)]))
+    if set(poss) - set(labels):
+        raise MachineryError("position line without verdict")
     return fails, unspec, hits, lost
 
 
@@ -1143,22 +1200,214 @@ def run_g1(ctx):
             raise
         except Exception as ex:  # the public API refuses the construction
             unbuildable.append((c, "%s: %s" % (type(ex).__name__, str(ex)[:120])))
-    fails, unspec, hits, lost = judge(ctx, "g1", recs)
+    ctx.notes["g1_cases"] = len(cases)
+    ctx.notes["g1_unbuildable"] = [{"case": c, "why": w_} for c, w_ in unbuildable]
+    return recs, cases, unbuildable
+
+
+def check_g1(recs, cases, unbuildable, hits, lost):
+    """vacuity control: every built case exhibits its demand, every demand label has a built case"""
     if lost:
         byid = {r["id"]: r for r in recs}
-        raise MachineryError("G1 templates do not exhibit their demand: %r" % [(byid[i]["info"]["case"], f, p) for i, f, p in sorted(lost)][:5])
+        raise MachineryError("G1 templates do not exhibit their demand: %r" % [byid[i]["info"]["case"] for i in sorted(lost)][:5])
+    if {r["id"] for r in recs} - hits:
+        raise MachineryError("G1 records without a HIT / LOST verdict")
     labels_hit = {r["expect"] for r in recs if r["id"] in hits}
     labels_all = {c["feat"] for c in cases}
     if labels_all - labels_hit:
         raise MachineryError("no buildable G1 case for %r (%r)" % (sorted(labels_all - labels_hit), unbuildable[:3]))
-    report(ctx, recs, fails)
-    ctx.cov["evaluations"] += len(recs)
-    ctx.cov["unspecified"] += len(unspec)
-    ctx.notes["g1_cases"] = len(cases)
-    ctx.notes["g1_unbuildable"] = [{"case": c, "why": w_} for c, w_ in unbuildable]
-    return recs, len(cases), unbuildable
+
+
+# ----------------------------------------------------------------------------------------
+# G2: random problems of the shared grammar, every mask
+# ----------------------------------------------------------------------------------------
+GEN_MASKS = [
+    dict(),
+    dict(metric="any"),
+    dict(traj=True),
+    dict(metric="any", traj=True),
+    dict(adversarial_names=True, metric="any"),
+    dict(objfluents=False),
+    dict(numeric=False),
+    dict(real=False, bounded=False),
+    dict(quantifiers=False, disjunction=False, negation=False, implies=False),
+    dict(equality=False, conditional=False, forall_eff=False),
+    dict(incdec=False, fluent_assign=False, bool_expr_assign=False),
+    dict(invariants=False, undefined=False, hier=False, boolconst=False),
+    dict(max_actions=2, max_fluents=3, undefined=True, metric="any"),
+]
+TGEN_MASKS = [
+    dict(),
+    dict(metric="any"),
+    dict(fixed_durations=True),
+    dict(intermediate=False, timed=False),
+    dict(fluent_durations=False, inst_actions=False),
+    dict(quantifiers=True, objfluents=True, hier=True, undefined=True),
+    dict(numeric=False, invariants=False),
+    dict(negation=False, disjunction=False, implies=False, equality=False, conditional=False),
+]
+
+
+def g2_worker(job):
+    """build one generated UPJ problem with the real library and observe its kind"""
+    rid, P, deco, label = job
+    import unified_planning as up
+
+    def build():
+        problem = upj.build(P, up.environment.Environment())
+        if deco.get("discrete"):
+            problem.discrete_time = True
+        if deco.get("selfov"):
+            problem.self_overlapping = True
+        return problem
+
+    try:
+        with warnings.catch_warnings():
+            warnings.simplefilter("ignore")
+            problem = call_limited(build, limit=30)
+        return observe(rid, problem, "g2", intconst=True, info={"gen": label, "deco": deco, "upj": P})
+    except (Unprojectable, ImplTimeout) as ex:
+        return {"id": rid, "skip": "%s: %s" % (type(ex).__name__, ex)}
+    except MachineryError:
+        raise
+    except Exception as ex:  # the library refuses the generated description: not a kind question
+        return {"id": rid, "skip": "build %s: %s" % (type(ex).__name__, str(ex)[:100])}
+
+
+def run_g2(ctx, n_gen, n_tgen):
+    from multiprocessing import Pool
+    from ..gen import Gen, TGen
+
+    jobs = []
+    rid = 100000
+    for cls, masks, n in ((Gen, GEN_MASKS, n_gen), (TGen, TGEN_MASKS, n_tgen)):
+        gens = [(cls(ctx.rng, **m), "%s%r" % (cls.__name__, sorted(m.items()))) for m in masks]
+        for i in range(n):
+            g, label = gens[i % len(gens)]
+            deco = {}
+            if cls is TGen and ctx.rng.random() < 0.25:
+                deco = {"discrete": ctx.rng.random() < 0.5, "selfov": ctx.rng.random() < 0.5}
+            rid += 1
+            jobs.append((rid, g.problem(), deco, label))
+    with Pool(8, maxtasksperchild=200) as pool:
+        out = pool.map(g2_worker, jobs, chunksize=8)
+    recs = [r for r in out if "skip" not in r]
+    skipped = [r for r in out if "skip" in r]
+    if len(skipped) > 0.2 * len(out):
+        raise MachineryError("too many generated problems could not be built: %r" % [r["skip"] for r in skipped[:5]])
+    ctx.notes["g2_skipped"] = len(skipped)
+    return recs, skipped
+
+
+# ----------------------------------------------------------------------------------------
+# corpus: the bundled example problems
+# ----------------------------------------------------------------------------------------
+def run_corpus(ctx):
+    from unified_planning.test.examples import get_example_problems
+    from unified_planning.test.examples import multi_agent
+
+    with warnings.catch_warnings():
+        warnings.simplefilter("ignore")
+        items = sorted(get_example_problems().items()) + sorted(("ma:" + k, v) for k, v in multi_agent.get_example_problems().items())
+    recs, skipped = [], []
+    for i, (name, tc) in enumerate(items):
+        try:
+            recs.append(observe(200000 + i, tc.problem, "corpus", intconst=False,
+                                info={"example": name, "class": type(tc.problem).__name__}))
+        except Unprojectable as ex:
+            skipped.append((name, type(tc.problem).__name__, str(ex)))
+    ctx.notes["corpus_skipped"] = skipped
+    return recs, skipped
 
 
 def run(ctx):
-    recs, ncases, unb = run_g1(ctx)
+    q = ctx.quick
+    g1, cases, unb = run_g1(ctx)
+    ncases = len(cases)
+    g2, g2skip = run_g2(ctx, 520 if q else 4500, 400 if q else 3500)
+    corpus, cskip = run_corpus(ctx)
+    allrecs = g1 + g2 + corpus
+    # one TLC run judges every record (JVM start-up dominates small batches)
+    fails, unspec, hits, lost = judge(ctx, "all", allrecs)
+    check_g1(g1, cases, unb, hits, lost)
+    report(ctx, allrecs, fails)
+    ctx.cov["evaluations"] += len(allrecs)
+    ctx.cov["unspecified"] += len(unspec)
+    bycls = {}
+    for r in allrecs:
+        bycls[r["P"]["class"]] = bycls.get(r["P"]["class"], 0) + 1
+    # non-trivial: the recorded kind has at least four features (more than class + typing)
+    ctx.cov["distinct_nontrivial"] = len({(tuple(r["kind"]), r["P"]["class"]) for r in allrecs if len(r["kind"]) >= 4})
+    ex = next(r for r in g1 if r["info"]["case"]["grp"] == "cond" and r["info"]["case"]["pos"] == "timed-goal")
+    ctx.sample({"kind": "G1 case", "case": ex["info"]["case"], "computed_kind": ex["kind"]})
+    ctx.sample({"kind": "G2 problem", "generator": g2[0]["info"]["gen"], "computed_kind": g2[0]["kind"]})
+    ctx.sample({"kind": "bundled example", "example": corpus[0]["info"]["example"], "computed_kind": corpus[0]["kind"]})
     ctx.cov["exhaustive"] = True
+    ctx.cov["rule"] = (
+        "G1: every (class, feature, position, variant) case of UPKindsEnum (%d cases, %d not expressible through the public API), one "
+        "minimal problem each, HIT-checked by the judge; G2: %d random problems of harness/gen.py (Gen: %d masks, TGen: %d masks, "
+        "seeded discrete-time / self-overlapping decorations; %d refused by the model builder); corpus: %d bundled example problems "
+        "(%d not expressible in the abstract model: %s). One evaluation = one problem whose computed kind TLC compares with "
+        "UPKinds!Demands; problems per class: %r; non-trivial = distinct (class, kind) pairs with at least four features."
+        % (ncases, len(unb), len(g2), len(GEN_MASKS), len(TGEN_MASKS), len(g2skip), len(corpus), len(cskip),
+           ", ".join(sorted({s[0] for s in cskip})) or "-", bycls)
+    )
+    ctx.assumptions += [
+        "TLC and the CommunityModules Json reader are trusted",
+        "the projection (harness/upj.py project + the class sections of harness/drivers/c10.py) is structure-preserving",
+        "feature meanings are those of docs/problem_representation.rst (table 'Problem Kinds'); where the table leaves two "
+        "readings open the weaker one is demanded (labels ending in '+')",
+        "numeric fluents read only by durations / action costs are not required to raise INT_FLUENTS / REAL_FLUENTS (counted as unspecified)",
+        "TAMP / SAMP problems, the up_test_cases corpus (not installed) and contingent problems beyond the G1 cases are not covered",
+    ]
+
+
+# ----------------------------------------------------------------------------------------
+# replay of one recorded violation, self-test of the judge
+# ----------------------------------------------------------------------------------------
+def replay(ctx, doc):
+    """rebuild the input of a recorded violation, observe the current code again and let TLC judge it"""
+    data = doc["data"]
+    info, src = data["info"], data["source"]
+    if src == "g1":
+        with warnings.catch_warnings():
+            warnings.simplefilter("ignore")
+            problem = instantiate(info["case"], 1)
+        rec = observe(1, problem, "g1", expect=info["case"]["feat"], epos=info["case"]["pos"], intconst=True, info=info)
+    elif src == "g2":
+        rec = g2_worker((1, info["upj"], info["deco"], info["gen"]))
+        if "skip" in rec:
+            raise MachineryError("cannot rebuild the generated problem: " + rec["skip"])
+    else:
+        from unified_planning.test.examples import get_example_problems
+        from unified_planning.test.examples import multi_agent
+
+        name = info["example"]
+        with warnings.catch_warnings():
+            warnings.simplefilter("ignore")
+            ex = multi_agent.get_example_problems()[name[3:]] if name.startswith("ma:") else get_example_problems()[name]
+        rec = observe(1, ex.problem, "corpus", info=info)
+    fails, _, _, _ = judge(ctx, "replay", [rec])
+    sigs = sorted("%s|%s|%s" % (rec["P"]["class"], c, p) for _, c, p in fails)
+    print("computed kind: %s" % rec["kind"])
+    for s in sigs:
+        print("still violated: %s" % s)
+    if doc["signature"] in sigs:
+        print("VIOLATION property=C10 reproduced: %s" % doc["signature"])
+        return 1
+    print("not reproduced: %s" % doc["signature"])
+    return 0
+
+
+def selftest(ctx):
+    """the judge rejects a recorded kind from which a used feature has been removed, and accepts the original"""
+    case = {"grp": "cond", "cls": "classical", "feat": "NEGATIVE_CONDITIONS", "pos": "timed-goal", "var": "nested"}
+    with warnings.catch_warnings():
+        warnings.simplefilter("ignore")
+        problem = instantiate(case, 1)
+    good = observe(1, problem, "g1", expect=case["feat"], epos=case["pos"], intconst=True)
+    bad = dict(good, id=2, kind=[f for f in good["kind"] if f != "NEGATIVE_CONDITIONS"])
+    fails, _, hits, lost = judge(ctx, "selftest", [good, bad])
+    ok = hits == {1, 2} and not lost and (2, "missing-NEGATIVE_CONDITIONS", "timed-goal") in fails and not [f for f in fails if f[0] == 1]
+    print("selftest: corrupted record rejected, original accepted" if ok else "selftest FAILED: %r" % sorted(fails))
+    return 0 if ok else 2
